@@ -240,9 +240,14 @@ def model_check(cases, results, variant, name='C19'):
         idx.append(i)
     bad = []
     CH = 400
-    for off in range(0, len(rows), CH):
+    from concurrent.futures import ThreadPoolExecutor
+
+    def chunk(off):
         body = 'Definition cases := [\n' + ';\n'.join(rows[off:off + CH]) + '\n].\nEval vm_compute in failing 0 cases.\n'
-        rc, out, err = run_cases(f'{name}_{off // CH}', header(variant), body)
+        return off, run_cases(f'{name}_{off // CH}', header(variant), body)
+    with ThreadPoolExecutor(max_workers=4) as ex:
+        outs = list(ex.map(chunk, range(0, len(rows), CH)))
+    for off, (rc, out, err) in outs:
         m = re.search(r'=\s*\[(.*?)\]\s*:\s*list nat', out, re.S)
         if rc != 0 or not m:
             return None, idx, (out + err)[-800:]
@@ -409,9 +414,11 @@ def main(tier):
         'octal, \\x, \\N, \\U answer Unmodelled; the expression parser is modelled only for NAME("literal")',
         'regex(p) is a Section variable (oracle) in every theorem; contains() is the literal substring test of _fn_contains',
         'the transaction is matched on its raw description (no field transforms in the rules file)']
+    T = {'start': time.time()}
     info, xerr = regen_gen()
     res = run.proof_step(COQ_FILES, extra_trusted=[
         'tools/c19_patterns.py (extractor, fail closed)', 'harness/c19.py + harness/impl_c19.py (correspondence, oracle, CLI loop)'])
+    T['proof'] = time.time()
     run.cov['obligations'] += 1          # the extraction obligation
     broken = []
     if xerr:
@@ -424,7 +431,7 @@ def main(tier):
     if res['hygiene']:
         broken.append({'kind': 'hygiene', 'detail': res['hygiene']})
 
-    n, maxlen = (1300, 2) if tier == 'quick' else (40000, 4)
+    n, maxlen = (1300, 2) if tier == "quick" else (12000, 3)
     cases, discarded = gen_cases(run.seed, n, maxlen)
     out = run_cases_impl(cases)
     results, variant = out['results'], out['variant']
@@ -432,6 +439,7 @@ def main(tier):
         broken.append({'kind': 'translation-failure', 'obligation': 'variant detection',
                        'detail': f'extractor says fixed={info["fixed"]}, implementation module says {variant}'})
 
+    T['impl'] = time.time()
     # direct oracle
     by_sig = {}
     for c, r in zip(cases, results):
@@ -452,6 +460,7 @@ def main(tier):
                                            'broken': broken}, signature=s)
         reported.append((s, small, new))
 
+    T['oracle+shrink'] = time.time()
     # CLI loop
     work = os.path.join(WORK, 'C19_cli')
     os.makedirs(work, exist_ok=True)
@@ -478,6 +487,7 @@ def main(tier):
                                   'expected': 'every suggestion loads and matches; Unknown count strictly decreases after appending the suggestions',
                                   'variant': variant, 'broken': broken}, signature=s)
 
+    T['cli'] = time.time()
     # correspondence model vs implementation
     model_idx = []
     if res['ok'] or os.path.exists(os.path.join(COQ, 'theories', 'C19', 'Model.vo')):
@@ -498,6 +508,9 @@ def main(tier):
                                  'searched': f'{len(cases)} generated descriptions + {len(budgets)} CLI loops against the C19 oracle; '
                                              f'no failure beyond the listed known findings'}, found_input=False)
 
+    T['model'] = time.time()
+    ks = list(T)
+    timings = {ks[i]: round(T[ks[i]] - T[ks[i - 1]], 1) for i in range(1, len(ks))}
     # evidence
     multi = [c['d'] for c, r in zip(cases, results) if 'pattern' in r and '\\s*' in r['pattern']]
     esc = [c['d'] for c, r in zip(cases, results) if 'pattern' in r and re.search(r'\\[^s]', r['pattern'])]
@@ -522,7 +535,7 @@ def main(tier):
         'impl_oracle_cases': len(cases), 'model_vs_impl_cases_in_coq': len(model_idx),
         'cli_loops': [{k: o.get(k) for k in ('descriptions', 'unknown_before', 'unknown_after', 'still_unknown', 'error')} for o in loops],
         'reported': [{'signature': s, 'shrunk': d, 'new': new} for s, d, new in reported],
-        'extraction': 'ok' if info else xerr, 'broken': broken})
+        'extraction': 'ok' if info else xerr, 'broken': broken, 'phase_seconds': timings})
     run.finish()
 
 
